@@ -169,7 +169,8 @@ META.update({
 CHECKS["C05"] = dict(parts=[part("predefined-lookups", "pure", "TestC05", 20_000, 2_000_000)])
 CHECKS["C19"] = dict(parts=[part("budgets-exact", "pure", "TestC19", 5000, 500_000),
                             part("progress-at-timer-instant", "pure", "TestC19Coincide", 3000, 300_000),
-                            part("client-connect-timeout", "cl", "TestC19Connect", 2000, 150_000)])
+                            part("client-connect-timeout", "cl", "TestC19Connect", 2000, 150_000),
+                            part("client-retry-schedule", "cl", "TestC19Retry", 2000, 150_000)])
 CHECKS["C29"] = dict(parts=[part("id-sequence", "pure", "TestC29Seq", 2000, 100_000, race=True, death_is_violation=True, death_kind="data-race-or-crash/id-sequence", env={"GORACE": "halt_on_error=1"}),
                             part("store-linearizable", "pure", "TestC29Store", 2000, 200_000, race=True, death_is_violation=True, death_kind="data-race-or-crash/store", env={"GORACE": "halt_on_error=1"})])
 CHECKS["C18"] = dict(parts=[part("finished-stays-finished", "pure", "TestC18", 5000, 300_000, race=True, death_is_violation=True, death_kind="panic-or-data-race/transaction", env={"GORACE": "halt_on_error=1"}),
